@@ -5,6 +5,7 @@ import (
 	"sort"
 	"strings"
 	"sync"
+	"sync/atomic"
 	"time"
 
 	"github.com/VolantMQ/vlapi/mqttp"
@@ -36,6 +37,8 @@ type c01Broker struct {
 	pkid    uint16
 	subid   uint16
 	failure string
+	durable bool // the history holds a restart: the sessions are durable, and come back after it
+	opts    BrokerOpts
 }
 
 type markStub struct{ r *c01Broker }
@@ -102,12 +105,82 @@ func (r *c01Broker) session(id int) (*Auto, error) {
 	}
 	cl := r.b.Dial()
 	cl.LenientUnsuback = true
-	if _, err := cl.Connect(ConnectOpts{ID: fmt.Sprintf("c01s%d", id), Ver: ver, Clean: true}); err != nil {
+	o := ConnectOpts{ID: fmt.Sprintf("c01s%d", id), Ver: ver, Clean: !r.durable}
+	if r.durable && ver == mqttp.ProtocolV50 {
+		forever := uint32(0xFFFFFFFF)
+		o.Expiry = &forever
+	}
+	if _, err := cl.Connect(o); err != nil {
 		return nil, err
 	}
 	a := cl.Auto(false)
 	r.sess[id] = a
+	r.seen[id] = 0
 	return a, nil
+}
+
+func (r *c01Broker) publishers() error {
+	pc := r.b.Dial()
+	if _, err := pc.Connect(ConnectOpts{ID: "c01pub", Ver: mqttp.ProtocolV50, Clean: true}); err != nil {
+		return fmt.Errorf("publisher: %v", err)
+	}
+	r.pub = pc.Auto(false)
+	pc4 := r.b.Dial()
+	if _, err := pc4.Connect(ConnectOpts{ID: "c01pub4", Ver: mqttp.ProtocolV311, Clean: true}); err != nil {
+		return fmt.Errorf("publisher (3.1.1): %v", err)
+	}
+	r.pub4 = pc4.Auto(false)
+	return nil
+}
+
+// restart: the broker is shut down and started again over the same persistence; the (durable) sessions come back
+func (r *c01Broker) restart() error {
+	old := r.b
+	pers := old.Persist
+	atomic.StoreInt32(&old.mgrDown, 1)
+	stopped := make(chan struct{})
+	go func() { _ = old.Mgr.Stop(); _ = old.Mgr.Shutdown(); old.ShutdownTopics(); close(stopped) }()
+	select {
+	case <-stopped:
+	case <-time.After(10 * time.Second):
+		return fmt.Errorf("shutdown did not return")
+	}
+	old.Drop2()
+	r.mu.Lock()
+	r.marks, r.nmark = 0, 0
+	r.mu.Unlock()
+	o := r.opts
+	o.Persist = pers
+	b, err := NewBroker(o)
+	if err != nil {
+		return fmt.Errorf("restart: %v", err)
+	}
+	r.b = b
+	if err := r.publishers(); err != nil {
+		return err
+	}
+	ids := []int{}
+	for id := range r.sess {
+		ids = append(ids, id)
+	}
+	sort.Ints(ids)
+	for _, id := range ids {
+		delete(r.sess, id)
+		if _, err := r.session(id); err != nil {
+			return fmt.Errorf("session %d after the restart: %v", id, err)
+		}
+	}
+	if !r.settle() {
+		return fmt.Errorf("settle after the restart")
+	}
+	for _, id := range ids {
+		for _, m := range r.news(id) {
+			if !strings.HasPrefix(m.Topic(), "zz/") {
+				return fmt.Errorf("session %d was sent %q when it came back after the restart (nothing was pending)", id, m.Topic())
+			}
+		}
+	}
+	return nil
 }
 
 func waitOther(a *Auto, t mqttp.Type, n int) bool {
@@ -196,27 +269,23 @@ func (r *c01Broker) publish(topic string, payload []byte, qos byte, retain bool)
 func (p *c01Prop) runBroker(c *c01Case) interface{} {
 	obs := &c01Obs{}
 	r := &c01Broker{sess: map[int]*Auto{}, seen: map[int]int{}}
-	b, err := NewBroker(BrokerOpts{SubsShared: true, SubsID: true, OnTopics: func(tp topicsTypes.Provider) error {
+	r.opts = BrokerOpts{SubsShared: true, SubsID: true, OnTopics: func(tp topicsTypes.Provider) error {
 		return tp.Subscribe(topicsTypes.SubscribeReq{Filter: "zz/marker", S: &markStub{r}, Params: vlsubscriber.SubscriptionParams{Ops: mqttp.SubscriptionOptions(0 | 0x20)}}).Err
-	}})
+	}}
+	for _, op := range c.Ops {
+		r.durable = r.durable || op.Op == "restart"
+	}
+	b, err := NewBroker(r.opts)
 	if err != nil {
 		obs.Err = err.Error()
 		return obs
 	}
-	defer b.Drop()
+	defer func() { r.b.Drop() }()
 	r.b = b
-	pc := b.Dial()
-	if _, err = pc.Connect(ConnectOpts{ID: "c01pub", Ver: mqttp.ProtocolV50, Clean: true}); err != nil {
-		obs.Err = "publisher: " + err.Error()
+	if err = r.publishers(); err != nil {
+		obs.Err = err.Error()
 		return obs
 	}
-	r.pub = pc.Auto(false)
-	pc4 := b.Dial()
-	if _, err = pc4.Connect(ConnectOpts{ID: "c01pub4", Ver: mqttp.ProtocolV311, Clean: true}); err != nil {
-		obs.Err = "publisher (3.1.1): " + err.Error()
-		return obs
-	}
-	r.pub4 = pc4.Auto(false)
 	for k, op := range c.Ops {
 		st := c01Step{}
 		fail := func(f string, a ...interface{}) { obs.Err = fmt.Sprintf("step %d: ", k) + fmt.Sprintf(f, a...) }
@@ -308,8 +377,12 @@ func (p *c01Prop) runBroker(c *c01Case) interface{} {
 				fail("publish: %v", e)
 			}
 			st.Recv = recv
+		case "restart":
+			if e := r.restart(); e != nil {
+				fail("%v", e)
+			}
 		case "retq":
-			x, _ := b.Topics.Retained(op.F)
+			x, _ := r.b.Topics.Retained(op.F)
 			st.Tags = []int{}
 			for _, m := range x {
 				if len(m.Payload()) >= 2 {
